@@ -361,7 +361,7 @@ type guard struct {
 }
 
 // guardsOf returns every branch condition that dominates b (edge-dominance), innermost first.
-func guardsOf(b *ssa.BasicBlock) []guard {
+func guardsOfRaw(b *ssa.BasicBlock) []guard {
 	var out []guard
 	for d := b.Idom(); d != nil; d = d.Idom() {
 		if len(d.Instrs) == 0 {
@@ -400,6 +400,11 @@ func (g guard) asCmp() (cmpFact, bool) {
 		break
 	}
 	b, ok := v.(*ssa.BinOp)
+	if !ok {
+		if hb, isHelper := boolHelperCmp(v); isHelper {
+			b, ok = hb, true
+		}
+	}
 	if !ok {
 		return cmpFact{}, false
 	}
@@ -531,4 +536,204 @@ func isCallTo(cc *ssa.CallCommon, pkgPath, recv, name string) bool {
 		return false
 	}
 	return isNamedType(f.Signature.Recv().Type(), pkgPath, recv)
+}
+
+// expandGuard turns a branch on a short-circuit boolean (a phi produced by `a && b` / `a || b` evaluated as a value,
+// e.g. in a tagless switch case) into the atomic facts it implies: `(a && b)` true ⇒ a true, b true;
+// `(a || b)` false ⇒ a false, b false. Facts are returned outermost first.
+func expandGuard(g guard, depth int) []guard {
+	if depth > 4 {
+		return []guard{g}
+	}
+	v, val := g.boolVal()
+	phi, ok := v.(*ssa.Phi)
+	if !ok {
+		return []guard{g}
+	}
+	if b, isB := phi.Type().Underlying().(*types.Basic); !isB || b.Kind() != types.Bool {
+		return []guard{g}
+	}
+	var nonConst ssa.Value
+	var pred *ssa.BasicBlock
+	n := 0
+	for i, e := range phi.Edges {
+		if c, ok := e.(*ssa.Const); ok && c.Value != nil && c.Value.Kind() == constant.Bool {
+			if constant.BoolVal(c.Value) == val {
+				return []guard{g} // the observed value can come from a constant edge: nothing follows
+			}
+			continue
+		}
+		n++
+		nonConst = e
+		pred = phi.Block().Preds[i]
+	}
+	if n != 1 {
+		return []guard{g}
+	}
+	var out []guard
+	// facts established on the way to the block that evaluated the last operand
+	pg := append(guardsOfRaw(pred), guardsOfSelf(pred)...)
+	for i := len(pg) - 1; i >= 0; i-- {
+		out = append(out, pg[i])
+	}
+	out = append(out, expandGuard(guard{cond: nonConst, val: val, blk: pred}, depth+1)...)
+	return out
+}
+
+// guardsOf returns every atomic branch fact that holds on every path to b (edge-dominance), innermost first,
+// with short-circuit boolean values expanded.
+func guardsOf(b *ssa.BasicBlock) []guard {
+	var out []guard
+	for _, g := range guardsOfRaw(b) {
+		ex := expandGuard(g, 0)
+		for i := len(ex) - 1; i >= 0; i-- {
+			out = append(out, ex[i])
+		}
+	}
+	return out
+}
+
+// resolveVal strips conversions and follows locals/captured variables that are assigned exactly once, so that a
+// hoisted expression (`n := len(in)`, `nWorkers := uint32(parallelism)`) is recognised as the expression itself.
+func resolveVal(v ssa.Value) ssa.Value {
+	for d := 0; d < 8; d++ {
+		switch x := v.(type) {
+		case *ssa.Convert:
+			v = x.X
+			continue
+		case *ssa.ChangeType:
+			v = x.X
+			continue
+		case *ssa.UnOp:
+			if x.Op == token.MUL {
+				if cell := cellOf(x.X); cell != nil {
+					sts := storesTo(cell)
+					if len(sts) == 1 {
+						v = sts[0].Val
+						continue
+					}
+				}
+			}
+		}
+		break
+	}
+	return v
+}
+
+// isLenOf: v is len(x) where x denotes the same variable as `of` (directly or through a single-assignment local).
+func isLenOf(v ssa.Value, of ssa.Value) bool {
+	v = resolveVal(v)
+	call, ok := v.(*ssa.Call)
+	if !ok {
+		return false
+	}
+	bi, ok := call.Call.Value.(*ssa.Builtin)
+	if !ok || bi.Name() != "len" || len(call.Call.Args) != 1 {
+		return false
+	}
+	a := call.Call.Args[0]
+	if a == of {
+		return true
+	}
+	if ld, ok := a.(*ssa.UnOp); ok && ld.Op == token.MUL {
+		if cell := cellOf(ld.X); cell != nil {
+			for _, st := range storesTo(cell) {
+				if st.Val == of {
+					return true
+				}
+			}
+		}
+	}
+	return false
+}
+
+// sameRootVar: a and b denote the same variable once conversions and single-assignment locals are peeled off.
+func sameRootVar(a, b ssa.Value) bool {
+	ra, rb := resolveVal(a), resolveVal(b)
+	if ra == rb {
+		return true
+	}
+	ca, cb := loadCell(ra), loadCell(rb)
+	return ca != nil && ca == cb
+}
+
+// boolHelperCmp: if v is a call of a tiny helper whose body is `return <x> op <y>` (e.g. t.empty() { return t.root.n == 0 }),
+// returns that comparison (in the helper's own value namespace).
+func boolHelperCmp(v ssa.Value) (*ssa.BinOp, bool) {
+	call, ok := v.(*ssa.Call)
+	if !ok {
+		return nil, false
+	}
+	cal := staticCallee(&call.Call)
+	if cal == nil || len(cal.Blocks) != 1 {
+		return nil, false
+	}
+	ret, ok := cal.Blocks[0].Instrs[len(cal.Blocks[0].Instrs)-1].(*ssa.Return)
+	if !ok || len(ret.Results) != 1 {
+		return nil, false
+	}
+	bin, ok := ret.Results[0].(*ssa.BinOp)
+	if !ok {
+		return nil, false
+	}
+	switch bin.Op {
+	case token.EQL, token.NEQ, token.LSS, token.LEQ, token.GTR, token.GEQ:
+		return bin, true
+	}
+	return nil, false
+}
+
+// tailCallee: if block b (an arm body) consists of a call to an in-package function whose results are returned
+// directly, returns that callee (the arm's logic was extracted into a helper).
+func tailCallee(b *ssa.BasicBlock) (*ssa.Function, *ssa.Call) {
+	if b == nil || len(b.Instrs) == 0 {
+		return nil, nil
+	}
+	ret, ok := b.Instrs[len(b.Instrs)-1].(*ssa.Return)
+	if !ok {
+		return nil, nil
+	}
+	for _, in := range b.Instrs {
+		call, ok := in.(*ssa.Call)
+		if !ok {
+			continue
+		}
+		cal := staticCallee(&call.Call)
+		if cal == nil || cal.Blocks == nil || rootFn(cal).Pkg != rootFn(b.Parent()).Pkg {
+			continue
+		}
+		// every result of the return is an extract of this call (or the call itself)
+		all := len(ret.Results) > 0
+		for _, r := range ret.Results {
+			if r == ssa.Value(call) {
+				continue
+			}
+			if ex, ok := r.(*ssa.Extract); ok && ex.Tuple == ssa.Value(call) {
+				continue
+			}
+			all = false
+		}
+		if all {
+			return cal, call
+		}
+	}
+	return nil, nil
+}
+
+// callSitesOf lists the static call sites of fn in its package.
+func callSitesOf(c *Ctx, fn *ssa.Function) []*ssa.Call {
+	var out []*ssa.Call
+	for _, f := range c.Funcs {
+		if rootFn(f).Pkg != rootFn(fn).Pkg {
+			continue
+		}
+		instrs(f, func(b *ssa.BasicBlock, i int, in ssa.Instruction) {
+			if call, ok := in.(*ssa.Call); ok {
+				if cal := staticCallee(&call.Call); cal == fn {
+					out = append(out, call)
+				}
+			}
+		})
+	}
+	return out
 }
